@@ -22,6 +22,9 @@ class LoopAdapter:
 
     def reset(self, init):
         self.plan = []
+        # what the model leaves open varies from behaviour to behaviour: clock readings far beyond 2**53 (exact as
+        # integers, not as floats), worlds whose truth value is False (a World subclass counting its entities)
+        self.counter = getattr(self, 'counter', 0) + 1
 
     # ------------------------------------------------------------------------------------------
     def _execute(self):
@@ -32,7 +35,7 @@ class LoopAdapter:
         env.segments = []       # closed segments
         env.frames = []         # planned frames of the current start() run
         env.fi = -1
-        env.clock = 0
+        env.clock = (2 ** 60 + 1) if self.counter % 2 else 0
         env.tagn = 0
         env.tags = {}
         env.forced = False
@@ -72,6 +75,8 @@ class LoopAdapter:
             elif kind == 'qlerr':
                 env.err_on_quit = True
                 d.quit_loop()
+            elif kind == 'quitto':
+                d.quit_loop(env.handles[h]())
             elif kind == 'clrquit':
                 d.default_loop.current_world_handle.clear()
                 d.quit_loop()
@@ -144,7 +149,11 @@ class LoopAdapter:
                 env.log.append(('run', tag(self.w), 'upd', dt))
                 maybe_request('upd', self.w)
 
+        falsy_world = type('CountingWorld', (d.World,), {'__len__': lambda self_: 0})
+
         def populate(handle, world):
+            if self.counter % 3 == 0:
+                world.__class__ = falsy_world
             env.tagn += 1
             env.tags[id(world)] = env.tagn
             env.keep.append(world)
@@ -196,7 +205,7 @@ class LoopAdapter:
                     while j < len(plan) and plan[j][0] == 'frame':
                         frames.append(plan[j][1:])
                         j += 1
-                        if frames[-1][2][0] in ('quit', 'quit_loop', 'clrquit', 'error', 'qlerr', 'switchq'):
+                        if frames[-1][2][0] in ('quit', 'quit_loop', 'quitto', 'clrquit', 'error', 'qlerr', 'switchq'):
                             break
                     env.frames = frames
                     env.fi = -1
